@@ -144,7 +144,8 @@ CLAIMED["C11"] = {
              "total_sent[] a thread zeroes stays inside the array for rank counts up to MAX_NODES; rs_realloc copies min(requested, old block) bytes "
              "and the old block size it is told is 1 << the order found by climbing the tree from the block; a history element is dereferenced "
              "(directly or by a callee) only when proven untagged or last; the serial loop does not use the event after releasing the heap's "
-             "top (heap_min / heap_extract of one heap name the same element)."),
+             "top (heap_min / heap_extract of one heap name the same element); a worker releases its LPs' histories and its queue only after a "
+             "thread barrier that follows the main loop."),
     "note": TRUST + " Doubles are treated as reals in interval reasoning.",
 }
 CLAIMED["C12"] = {
@@ -188,7 +189,8 @@ CLAIMED["C08"] = {
              "code with the right handler; LP_FINI is dispatched exactly once per LP; the counter votes depend on is conserved (C07.1); for 1..8 "
              "ranks the control-message broadcast sends one notice to every rank, and for 1..8 threads one worker is started per thread id and all are "
              "joined before the global finalisation; for 1..8 ranks x 1..8 threads the shares of total_sent[] the threads zero after a message "
-             "count cover every rank's entry (a stale entry makes a rank wait forever). NOT "
+             "count cover every rank's entry (a stale entry makes a rank wait forever); lp_global_init, interpreted for 1..12 LPs x 1..8 ranks, leaves no "
+             "rank without a worker thread or refuses to start; every rank sends its GVT_DONE notice to the one rank that opens rounds. NOT "
              "decided: liveness under all interleavings of the last vote or a stop request with an open GVT round, MPI progress, spin-loop bounds."),
     "note": TRUST,
 }
